@@ -139,6 +139,28 @@ def main(tier: str) -> int:
             yt = [yt[0]] * n          # constant targets
         yp = list(yt) if kind == 1 else [float(rng.randint(-8, 8)) / 4 for _ in range(n)]   # perfect predictions
         reg_case(yt, yp)
+    # constant targets whose value is not exactly representable (the float mean may be 1 ulp off),
+    # and targets with a large mean relative to their spread
+    for c in (0.1, 0.2, 0.7, 3.3, 123.456, 1e-3):
+        for n in (3, 6, 7, 10):
+            yt = [c] * n
+            yp = [c + 0.5 * ((-1) ** i) for i in range(n)]
+            a, b = np.array(yt), np.array(yp)
+            r2 = float(M.coefficient_determination(a, b))
+            ref = 1 - sum((x - y) ** 2 for x, y in zip(yt, yp)) / 1e-10
+            chk.case(("r2const", c, n))
+            if not C.close(r2, ref, 1e-6, 1e-6):
+                chk.fail("coefficient_determination on constant targets is not the documented value (1e-10 substitute for a zero total sum of squares)",
+                         {"y_true": yt, "y_pred": yp, "got": r2, "reference": ref}, {"fn": "r2", "constant_target": True})
+    for off in (1e3, 1e6, 1e8):
+        yt = [off + v for v in (0.0, 1.0, 2.5, -1.5, 0.25, 3.0)]
+        yp = [v + 0.25 for v in yt]
+        r2 = float(M.coefficient_determination(np.array(yt), np.array(yp)))
+        m_ = sum(yt) / len(yt)
+        ref = 1 - sum((x - y) ** 2 for x, y in zip(yt, yp)) / sum((x - m_) ** 2 for x in yt)
+        chk.case(("r2offset", off))
+        if not C.close(r2, ref, 1e-9, 1e-9):
+            chk.fail("coefficient_determination differs from its definition on targets with a large mean", {"y_true": yt, "got": r2, "reference": ref}, {"fn": "r2", "large_mean": True})
     for _ in range(20):
         n = rng.randint(2, 8)
         yt = [rng.uniform(-3, 3) for _ in range(n)]
